@@ -23,6 +23,10 @@ from deep.api.resource import Resource
 from deep.utils import time_ns
 
 
+_ID_GENERATOR = random.Random()
+"""The ids are created from our own generator, so we do not change the state of the random module of the app."""
+
+
 class EventSnapshot:
     """This is the model for the snapshot that is uploaded to the services."""
 
@@ -36,7 +40,7 @@ class EventSnapshot:
         :param frames: the captured frames
         :param var_lookup: the captured variables.
         """
-        self._id = random.getrandbits(128)
+        self._id = _ID_GENERATOR.getrandbits(128)
         self._tracepoint = tracepoint
         self._var_lookup: Dict[str, 'Variable'] = var_lookup
         self._ts_nanos = ts
